@@ -728,7 +728,11 @@ class Executor:
                 src = dict(self.trace["steps"][step["of"]])
                 src.pop("fault", None)
                 np.random.set_state(states[step["of"]])
-                self.w._orig_randn(int(step.get("shift", 17)))
+                # at least 1000 Gaussian draws (>= 1400 words of MT19937 output): the state vector is
+                # regenerated at least twice, so a routine that merely CONSUMES the stream - even a
+                # data-dependent amount of it, as rejection samplers do - cannot end in the state
+                # the original execution ended in (a short shift can: pos + fewer words = same pos)
+                self.w._orig_randn(1000 + int(step.get("shift", 17)))
                 rec = self.run_op(i, src)
                 rec["k"] = "reissue"
                 rec["of"] = step["of"]
@@ -746,7 +750,7 @@ class Executor:
                     keep_val, keep_args, keep_draws = self.values.get(i), self.argvals.get(i), self.draws.get(i)
                     after = np.random.get_state()
                     np.random.set_state(states[i])
-                    self.w._orig_randn(11)
+                    self.w._orig_randn(1011)    # see the `reissue` step for why the shift is long
                     r2 = self.run_op(i, step)
                     rec["auto_reissue"] = {"rng_before": r2["rng_before"], "rng_after": r2["rng_after"]}
                     self.values[i], self.argvals[i], self.draws[i] = keep_val, keep_args, keep_draws
